@@ -11,16 +11,20 @@ import sat
 from common import MachineryError, Scratch, Verdict
 
 PID = "C19"
-INVARIANTS = ["Restored", "Innermost", "SavedChain", "RestoreStep", "ConventionsAgree", "OriginalIffRestored", "NonCallableAsIs"]
+INVARIANTS = ["Restored", "Innermost", "SavedChain", "ConventionsAgree", "OriginalIffRestored", "NonCallableAsIs", "ReactivationReplaces"]
 
 
-def classify(case, j):
-    """(clause, trigger) of a mismatch at step j: entering -> the conventions must reach the replacement
-    (trigger = replacement kind), leaving -> the previous object must be back (trigger = style/exit path)"""
+def classify(case, j, why):
+    """(clause, trigger) of a mismatch at step j.  C19.replace: a target with an active patch is not served by its
+    replacement (trigger = replacement kind of the activation, or 'after <op>' when another patch ending / the holder
+    changing broke it); C19.restore: a target without active patch does not hold its original (trigger = style/exit)"""
     h = case["h"]
     o = h[j] if j < len(h) else h[-1]
-    if o["op"] == "enter":
-        return "C19.replace", o["repl"]
+    if o["op"] in ("enter", "reenter") and why != "restored":
+        t = o["repl"] + ("/shared" if o["share"] else "") + ("/reactivated" if o["op"] == "reenter" else "")
+        return "C19.replace", t
+    if why == "active":
+        return "C19.replace", "after %s" % o["op"]
     return "C19.restore", "%s/%s" % (o["style"], o["op"])
 
 
@@ -44,8 +48,14 @@ def main():
             if mism:
                 print("VIOLATION property=%s replay=%s" % (PID, a.replay))
             return 1 if mism else 0
-        runs = [("full", {"DEPTH": "4", "PATCHES": "2", "NEST": "2"})]
+        # full: one target, 2 patchers (the second may share the first one's replacement object), every style/kind;
+        # two: a second target (patches of different targets end in any order), alphabet with/start x default/function/callobj/value;
+        # reuse: one patcher activated again and again, the holder re-created in between
+        runs = [("full", {"DEPTH": "4", "PATCHES": "2", "NEST": "2"}),
+                ("two", {"TWO": "1", "DEPTH": "4", "PATCHES": "2", "NEST": "2", "PRESET": "mid", "API": "str"}),
+                ("reuse", {"REUSE": "1", "DEPTH": "6", "PATCHES": "1", "NEST": "1"})]
         if tier == "thorough":
+            runs.append(("reuse2", {"REUSE": "1", "DEPTH": "5", "PATCHES": "2", "NEST": "2", "PRESET": "small", "API": "str"}))
             runs.append(("deep", {"DEPTH": "6", "PATCHES": "3", "NEST": "3", "PRESET": "small", "API": "str"}))
         cases, states, transitions, ok, alarms, tails = [], 0, 0, True, [], []
         for name, env in runs:
@@ -54,7 +64,7 @@ def main():
             if al:
                 alarms.append("%s (%s)" % (al, name))
                 tails.append(res.out[-2000:])
-            got = [{"target": h["target"], "api": h["api"], "h": h["h"], "run": name} for h in hs if "h" in h]
+            got = [{"target": h["target"], "api": h["api"], "two": h["two"], "h": h["h"], "run": name} for h in hs if "h" in h]
             if not got:
                 raise MachineryError("TLC exported no histories (%s):\n%s" % (name, res.out[-2000:]))
             cases += got
@@ -69,13 +79,16 @@ def main():
             for m in mism:
                 c = cases[m["i"]]
                 j = m["diff"][0] if isinstance(m["diff"], list) and m["diff"] else 0
-                clause, trigger = classify(c, j)
+                clause, trigger = classify(c, j, m.get("why"))
                 verdict.report(clause, trigger, {"history": c, "got": m["got"], "first_diff": j, "build": bname})
         if alarms and not verdict.violations:
             raise MachineryError("; ".join(alarms) + " on MockPatch.tla but the real patcher follows every prescribed history: the model is wrong\n" + "\n".join(tails))
         steps = sum(len(c["h"]) for c in cases)
-        calls = sum(len(o["res"]["convs"]) for c in cases for o in c["h"])
+        calls = sum(len(r["convs"]) for c in cases for o in c["h"] for r in o["res"])
         nested = sum(1 for c in cases if any(o["op"] == "enter" and o["k"] >= 2 and i > 0 and c["h"][i - 1]["op"] == "enter" for i, o in enumerate(c["h"])))
+        shared = sum(1 for c in cases if any(o["op"] == "enter" and o["share"] for o in c["h"]))
+        reentered = sum(1 for c in cases if any(o["op"] == "reenter" for o in c["h"]))
+        reheld = sum(1 for c in cases if any(o["op"] == "rehold" for o in c["h"]) and any(o["op"] == "reenter" for o in c["h"]))
         exc_exit = sum(1 for c in cases if any(o["op"] == "exit_exception" for o in c["h"]))
         cov = {
             "states": states, "transitions": transitions, "traces_validated_against_impl": total,
@@ -88,18 +101,25 @@ def main():
             "exit_ops": sorted({o["op"] for c in cases for o in c["h"] if o["op"] != "enter"}),
             "model_invariants": INVARIANTS, "model_ok": ok, "mismatching_histories": nmis,
             "evaluations": total, "distinct_nontrivial": nested,
-            "histories_with_exception_exit": exc_exit,
-            "rule": "every history of enter(4 styles x 6 replacement kinds)/leave normally/leave by exception/stop/stopall over 5 target kinds x 2 "
-                    "ways of naming the target, each step followed by one call through every convention; non-trivial = a second patch is "
-                    "entered while the first is active (nested)",
+            "histories_with_exception_exit": exc_exit, "histories_sharing_one_replacement_object": shared,
+            "histories_reactivating_a_patcher": reentered, "of_those_with_holder_recreated": reheld,
+            "histories_per_run": {name: sum(1 for c in cases if c["run"] == name) for name, _ in runs},
+            "rule": "every history of enter(4 styles x 6 replacement kinds, or the previous patcher's replacement object again)/leave normally/leave by "
+                    "exception/stop/stopall over 5 target kinds x 2 ways of naming the target; with a second target (any stop order across targets); with "
+                    "re-activation of one patcher and re-creation of the holder; each step followed by one call through every convention on every target; "
+                    "non-trivial = a second patch is entered while the first is active (nested)",
             "exhaustive": True,
         }
         rc = verdict.finish()
         common.write_evidence(PID, "model_checking", cov, time.time() - t0, violations=len(verdict.violations),
-                              assumptions=["histories are bounded: 2 patches, nesting 2, depth 4 (thorough adds 3 patches, nesting 3, depth 6 over the smaller alphabet "
-                                           "with/deco/start x default/function/value, patch('mod.attr') only)",
-                                           "exits are LIFO (nested or sequential patches); stopall() only while the start()ed patches are the innermost ones: "
-                                           "non-LIFO stop order is outside the property (unittest.mock restores what each patch saved)",
+                              assumptions=["histories are bounded: 2 patchers, nesting 2, depth 4; re-activation run: 1 patcher, depth 6 (thorough adds 2 patchers with re-activation and "
+                                           "3 patchers, nesting 3, depth 6 over smaller alphabets, patch('mod.attr') only)",
+                                           "exits are LIFO per target (nested or sequential patches); patches of different targets end in any order; stopall() only while the "
+                                           "start()ed patches of each target are its innermost ones: non-LIFO stop order on ONE target is outside the property "
+                                           "(unittest.mock restores what each patch saved)",
+                                           "the holder is re-created only while no patch is active; a patch.object() patcher keeps the holder object it was given, so nothing is "
+                                           "prescribed for re-activating it after the holder was re-created (not enumerated)",
+                                           "a shared replacement object is one caller-supplied object (function / bound method / callable object / value) given to two patchers",
                                            "targets live in a scratch module/class (local attributes); classmethod/staticmethod/plain attribute are reached through the class, "
                                            "the method through an instance; the plain attribute is only read, or called synchronously when its replacement is callable",
                                            "the identity of a callable replacement in the slot is not prescribed (it may be wrapped); only 'not the original', and identity for "
